@@ -68,3 +68,111 @@ pub fn progress() {
 pub fn progress_value() -> u64 {
   PROGRESS.load(Ordering::Relaxed)
 }
+
+// ------------------------------------------------------------------------------------------
+// Are the workers of the current execution really asleep? A stuck verdict needs threads that
+// are *parked* (kernel state S through a whole sampling window), not threads that are runnable
+// but get no CPU on an overloaded machine, or that spin. Linux only; elsewhere (and under
+// Miri, whose scheduler is fair) the question is answered with `None` = unknown.
+
+static WORKERS: std::sync::Mutex<Vec<u64>> = std::sync::Mutex::new(Vec::new());
+
+fn current_tid() -> Option<u64> {
+  if cfg!(miri) {
+    return None;
+  }
+  let l = std::fs::read_link("/proc/thread-self").ok()?;
+  l.file_name()?.to_str()?.parse().ok()
+}
+
+/// Registers the calling thread as a worker of the running execution (see `chaos::enter`).
+pub fn register_worker() {
+  if let Some(t) = current_tid() {
+    if let Ok(mut w) = WORKERS.lock() {
+      if !w.contains(&t) {
+        w.push(t);
+      }
+    }
+  }
+}
+pub fn deregister_worker() {
+  if let Some(t) = current_tid() {
+    if let Ok(mut w) = WORKERS.lock() {
+      w.retain(|x| *x != t);
+    }
+  }
+}
+
+/// (state, utime+stime in clock ticks, involuntary context switches) of one task
+fn task_snap(tid: u64) -> Option<(char, u64, u64)> {
+  let s = std::fs::read_to_string(format!("/proc/self/task/{}/stat", tid)).ok()?;
+  let r = s.rfind(')')?;
+  let f: Vec<&str> = s[r + 1..].split_whitespace().collect();
+  // after the ')' the fields are: state(0) ppid(1) ... utime(11) stime(12)
+  let state = f.first()?.chars().next()?;
+  let cpu = f.get(11)?.parse::<u64>().ok()? + f.get(12)?.parse::<u64>().ok()?;
+  let st = std::fs::read_to_string(format!("/proc/self/task/{}/status", tid)).ok()?;
+  let nonvol = st
+    .lines()
+    .find(|l| l.starts_with("nonvoluntary_ctxt_switches"))
+    .and_then(|l| l.split_whitespace().last())
+    .and_then(|x| x.parse::<u64>().ok())?;
+  Some((state, cpu, nonvol))
+}
+
+/// Samples the kernel view of every registered worker `samples` times, `spacing` apart.
+/// `Some(true)`: every sample of every worker was S (sleeping: parked or in a timed wait), it
+/// was never preempted (no involuntary context switch: a `yield_now` loop or a spin shows up
+/// here) and used at most one clock tick of CPU over the window;
+/// `Some(false)`: some worker was runnable / spinning / yielding (detail says which);
+/// `None`: no information (no workers registered, /proc unavailable, Miri).
+pub fn workers_asleep(samples: u32, spacing: Duration) -> (Option<bool>, String) {
+  let tids: Vec<u64> = match WORKERS.lock() {
+    Ok(w) => w.clone(),
+    Err(_) => return (None, "registry poisoned".into()),
+  };
+  if tids.is_empty() {
+    return (None, "no registered workers".into());
+  }
+  struct Seen {
+    tid: u64,
+    states: String,
+    first: Option<(u64, u64)>,
+    last: Option<(u64, u64)>,
+  }
+  let mut seen: Vec<Seen> = tids.iter().map(|t| Seen { tid: *t, states: String::new(), first: None, last: None }).collect();
+  let mut known = false;
+  for i in 0..samples {
+    for s in seen.iter_mut() {
+      if let Some((c, cpu, nv)) = task_snap(s.tid) {
+        known = true;
+        s.states.push(c);
+        if s.first.is_none() {
+          s.first = Some((cpu, nv));
+        }
+        s.last = Some((cpu, nv));
+      }
+    }
+    if i + 1 < samples {
+      std::thread::sleep(spacing);
+    }
+  }
+  if !known {
+    return (None, "/proc task state unavailable".into());
+  }
+  let mut all = true;
+  let mut detail = Vec::new();
+  for s in &seen {
+    let (dcpu, dnv) = match (s.first, s.last) {
+      (Some(a), Some(b)) => (b.0.saturating_sub(a.0), b.1.saturating_sub(a.1)),
+      _ => (0, 0),
+    };
+    // a task that disappeared (thread finished) has fewer samples: it was not parked forever
+    let complete = s.states.len() as u32 == samples;
+    if !complete || !s.states.chars().all(|c| c == 'S') || dnv != 0 || dcpu > 1 {
+      all = false;
+    }
+    detail.push(format!("{}:{}{} cpu+{} preempt+{}", s.tid, s.states, if complete { "" } else { "(gone)" }, dcpu, dnv));
+  }
+  (Some(all), detail.join(" "))
+}
